@@ -21,6 +21,8 @@ STRUCTS = [
     dict(id="under", rows=[("alive", [1, 2, 3, 4], None, True), ("ca", [1], None, True)]),
     dict(id="over", rows=[("ab", [1, 2], None, True), ("ca", [1], None, True), ("cb", [2], None, True), ("cc", [3], None, True), ("cd", [4], None, True)]),
     dict(id="frac", rows=[("alive", [1, 2, 3, 4], None, True), ("prev", [1, 2], "alive", True), ("ca", [1], None, True), ("cc", [3], None, True)]),
+    # a compartment that is not in the databook but has the default value 0 and a blank setup weight: it must start empty ("zero defaults")
+    dict(id="zerodef", rows=[("alive", [1, 2, 3, 4], None, True), ("ca", [1], None, True), ("cd", [4], None, True, "default0")]),
     dict(id="fracunused", rows=[("everybody", [1, 2, 3, 4], None, False), ("share", [1], "everybody", True), ("cb", [2], None, True), ("cc", [3], None, True), ("cd", [4], None, True)]),
 ]
 
@@ -34,7 +36,7 @@ def worlds_module(thorough):
     out = []
     for s in STRUCTS:
         names = [r[0] for r in s["rows"]]
-        dom = ["{%s}" % ",".join(rat(v) for v in (FRAC if r[2] else (NUMT if thorough and len(s["rows"]) <= 4 else NUM))) for r in s["rows"]]
+        dom = ["{%s}" % ",".join(rat(v) for v in ([0] if len(r) > 4 else FRAC if r[2] else (NUMT if thorough and len(s["rows"]) <= 4 else NUM))) for r in s["rows"]]
         out.append('[ id |-> "%s", ncomp |-> 4, members |-> <<%s>>, denom |-> <<%s>>, used |-> <<%s>>, dom |-> <<%s>> ]' % (
             s["id"], ",".join("{%s}" % ",".join(map(str, r[1])) for r in s["rows"]), ",".join(str(names.index(r[2]) + 1 if r[2] else 0) for r in s["rows"]),
             ",".join("TRUE" if r[3] else "FALSE" for r in s["rows"]), ",".join(dom)))
@@ -64,9 +66,13 @@ def framework(at, s):
     used = {r[0]: r[3] for r in s["rows"]}
     sheet("Databook Pages", [["Datasheet Code Name", "Datasheet Title"], ["sv", "State"], ["pa", "Pars"]])
     rows = [["Code Name", "Display Name", "Is Source", "Is Sink", "Is Junction", "Setup Weight", "Default Value", "Databook Page"]]
+    default0 = {r[0] for r in s["rows"] if len(r) > 4}
     for n in COMPS:
         inbook = n in used
-        rows.append([n, "C " + n, "n", "n", "n", 1 if used.get(n) else 0, 0 if inbook else None, "sv" if inbook else None])
+        if n in default0:
+            rows.append([n, "C " + n, "n", "n", "n", None, 0, None])  # blank setup weight, default value 0, no databook page
+        else:
+            rows.append([n, "C " + n, "n", "n", "n", 1 if used.get(n) else 0, 0 if inbook else None, "sv" if inbook else None])
     rows.append(["dead", "C dead", "n", "y", "n", 0, None, None])
     sheet("Compartments", rows)
     allc = COMPS + ["dead"]
@@ -78,7 +84,7 @@ def framework(at, s):
     M["cb"]["dead"] = "mu"
     sheet("Transitions", [["Transition Matrix"] + allc] + [[a] + [M[a][b] for b in allc] for a in allc])
     crow = [["Code Name", "Display Name", "Components", "Denominator", "Default Value", "Setup Weight", "Databook Page"]]
-    for (n, members, den, u) in s["rows"]:
+    for (n, members, den, u) in [r[:4] for r in s["rows"]]:
         if n not in COMPS:
             crow.append([n, "Ch " + n, ", ".join(COMPS[k - 1] for k in members), den, 0, 1 if u else 0, "sv"])
     # a characteristic of characteristics and a ratio of characteristics, reported only (consistency over time)
@@ -110,7 +116,10 @@ def observe(at, s, c):
     Fw, D = framework(at, s)
     ps = at.ParameterSet(Fw, sc.dcp(D))
     pop = ps.pop_names[0]
-    for k, (n, members, den, u) in enumerate(s["rows"]):
+    for k, r_ in enumerate(s["rows"]):
+        n = r_[0]
+        if len(r_) > 4:  # not a databook quantity: the framework's default value (0) is what initialises it
+            continue
         par = ps.pars[n]
         ts = par.ts[pop]
         ts.t, ts.vals = [], []
